@@ -22,6 +22,7 @@ type TempoController struct {
 }
 
 func (t *TempoController) Trace(w http.ResponseWriter, r *http.Request) {
+	defer tamePanic(w, r)
 	internalCtx, err := RunPreRequestPlugins(r)
 	if err != nil {
 		PromError(500, err.Error(), w)
@@ -47,6 +48,10 @@ func (t *TempoController) Trace(w http.ResponseWriter, r *http.Request) {
 	end, err := strconv.ParseInt(strEnd, 10, 64)
 	if err != nil {
 		end = 0
+	}
+	if len(traceId) > 64 {
+		PromError(400, "traceId is too long", w)
+		return
 	}
 	bTraceId := make([]byte, 32)
 	_, err = hex.Decode(bTraceId, []byte(traceId))
@@ -142,6 +147,7 @@ func (t *TempoController) Echo(w http.ResponseWriter, r *http.Request) {
 }
 
 func (t *TempoController) Tags(w http.ResponseWriter, r *http.Request) {
+	defer tamePanic(w, r)
 	internalCtx, err := RunPreRequestPlugins(r)
 	if err != nil {
 		PromError(500, err.Error(), w)
@@ -167,6 +173,7 @@ func (t *TempoController) Tags(w http.ResponseWriter, r *http.Request) {
 }
 
 func (t *TempoController) TagsV2(w http.ResponseWriter, r *http.Request) {
+	defer tamePanic(w, r)
 	var err error
 	internalCtx, err := RunPreRequestPlugins(r)
 	if err != nil {
@@ -232,6 +239,7 @@ func (t *TempoController) TagsV2(w http.ResponseWriter, r *http.Request) {
 }
 
 func (t *TempoController) ValuesV2(w http.ResponseWriter, r *http.Request) {
+	defer tamePanic(w, r)
 	var err error
 	internalCtx, err := RunPreRequestPlugins(r)
 	if err != nil {
@@ -295,6 +303,7 @@ func (t *TempoController) ValuesV2(w http.ResponseWriter, r *http.Request) {
 }
 
 func (t *TempoController) Values(w http.ResponseWriter, r *http.Request) {
+	defer tamePanic(w, r)
 	internalCtx, err := RunPreRequestPlugins(r)
 	if err != nil {
 		PromError(500, err.Error(), w)
